@@ -27,11 +27,11 @@ CONFIG = {
               'exhaustive_subspaces': ['all mutator sequences of length <= 3 over the op alphabet on 6 seed molecules, '
                                        'one interposed reader per step rotating through all readers'],
               'floors': {'evaluations': 20000, 'distinct_nontrivial': 3000, 'steps.compared': 20000,
-                         'invariant.evaluations': 20000, 'txn.raising': 500, 'copies.checked': 1000, 'txn.mixed.with-renumbering': 500}},
+                         'invariant.evaluations': 20000, 'txn.raising': 500, 'copies.checked': 1000, 'txn.mixed.with-renumbering': 500, 'txn.raising.with-reads-inside': 200}},
     'thorough': {'shards': 16, 'budget_s': 1800, 'depth': 4, 'n_random': 6000, 'random_len': 200,
                  'exhaustive_subspaces': ['all mutator sequences of length <= 4 over the op alphabet on 6 seed molecules'],
                  'floors': {'evaluations': 400000, 'distinct_nontrivial': 50000, 'steps.compared': 400000,
-                            'invariant.evaluations': 400000, 'txn.raising': 10000, 'copies.checked': 20000, 'txn.mixed.with-renumbering': 10000}},
+                            'invariant.evaluations': 400000, 'txn.raising': 10000, 'copies.checked': 20000, 'txn.mixed.with-renumbering': 10000, 'txn.raising.with-reads-inside': 4000}},
 }
 
 SEEDS = ['CCO', 'C1CCCCC1O', 'C[C@H](N)C(=O)O', 'C/C=C/CC(=O)[O-]', 'C1CC2CCC1C2', 'OC1=CC=CC=C1']
@@ -511,6 +511,20 @@ def apply(ctx, mol, op, k, hist):
                 mol.atom(a).charge = 1 if mol.atom(a).charge != 1 else 0
                 if k % 3 == 0 and len(atoms) > 2:
                     mol.delete_atom(b) if b != a else None
+                elif k % 3 == 1 and a != b and b not in mol._bonds[a]:
+                    mol.add_bond(a, b, 1)           # closes a ring or joins two components
+                elif k % 3 == 2:
+                    bl = [(x, y) for x, y, _ in mol.bonds()]
+                    x, y = bl[k % len(bl)]
+                    mol.delete_bond(x, y)           # opens a ring or splits a component
+                if k % 2 == 0:
+                    # derived views read inside the block are views of a state that is about to be rolled back
+                    for name in ('sssr', 'rings_count', 'connected_components', 'atoms_rings_sizes', 'atoms_order', 'str', 'brutto'):
+                        try:
+                            read(mol, name)
+                        except Exception:
+                            pass
+                    ctx.count('txn.raising.with-reads-inside')
                 raise Boom()
         except Boom:
             pass
@@ -768,6 +782,14 @@ def replay(ctx, mechanism, w):
                     with mol:
                         n = mol.add_atom('N')
                         mol.add_bond(step[1], n, 1)
+                        others = [x for x in mol._atoms if x not in (step[1], n) and x not in mol._bonds[step[1]]]
+                        if others:
+                            mol.add_bond(step[1], others[0], 1)
+                        for nm in ('sssr', 'rings_count', 'connected_components', 'atoms_order', 'str'):
+                            try:
+                                read(mol, nm)
+                            except Exception:
+                                pass
                         raise Boom()
                 except Boom:
                     pass
